@@ -174,7 +174,7 @@ Proof.
   match goal with |- context [k ?X] => assert (E1 : evo s X) end.
   { eapply evo_trans; [|apply logA_evo; intros; discriminate]. apply modc_evo. intros c. cbn. repeat split; auto; ex_nil. }
   match goal with |- context [k ?X] => pose proof (Hk X) as E2; destruct (k X) end; cbn in *.
-  - eapply evo_trans; [exact E1|]. eapply evo_trans; [exact E2|apply resume_r_evo].
+  - eapply evo_trans; [exact E1|]. destruct (pending _); [eapply evo_trans; [exact E2|apply resume_r_evo]|exact E2].
   - eapply evo_trans; eassumption.
   - eapply evo_trans; eassumption.
 Qed.
